@@ -179,13 +179,16 @@ def _jobs(tier):
         add(n=6, kind='T8', side='long', exch='futures', fast=True, tf='3m', sym=[1, 4])
     else:
         for side in ('long', 'short'):
-            for kind in ('T1', 'T1m', 'T2', 'T3', 'T4', 'T8'):
+            for kind in ('T1', 'T1m', 'T8'):
                 add(n=3, kind=kind, side=side, exch='futures')
+        add(n=3, kind='T2', side='long', exch='futures')
+        add(n=3, kind='T2', side='short', exch='futures', sym_from=2)
+        add(n=3, kind='T3', side='long', exch='futures')
+        add(n=3, kind='T3', side='short', exch='futures', sym_from=2)
+        add(n=3, kind='T4', side='short', exch='futures')
         for kind in ('T1', 'T1m'):
             add(n=3, kind=kind, side='long', exch='spot')
-        add(n=4, kind='T1', side='long', exch='futures')
         add(n=4, kind='T1m', side='short', exch='futures')
-        # fast mode, 3m route: two chunks; the first minute concrete, one symbolic minute per chunk region
         # fast mode, 3m route, two chunks: one or two symbolic minutes per chunk, the others flat at the previous close
         add(n=6, kind='T1', side='long', exch='futures', fast=True, tf='3m', sym=[1, 4])
         add(n=6, kind='T1', side='short', exch='futures', fast=True, tf='3m', sym=[2, 3])
